@@ -85,20 +85,6 @@ void harness(void)
      stream handles */
   __CPROVER_assume(options.handle.exit != options.handle.in && options.handle.exit != options.handle.out &&
                    options.handle.exit != options.handle.err);
-#ifdef VERIF_EXCLUDE_D11
-  /* Known finding D11, exactly: the three dup2 calls run in stream order without
-     saving their sources, so (a) a stream whose source handle has the number of
-     an EARLIER stream's target that was itself redirected reads the wrong
-     object, (b) the exit handle or process_start's own error pipe numbered 0..2
-     is overwritten. Everything else - in particular handles that already sit on
-     their own target (pipes that landed on 0..2) and a later stream sharing an
-     earlier, unredirected one (2>&1 onto the inherited stdout) - stays in. */
-  __CPROVER_assume(!((options.handle.out == 0 && options.handle.in != 0) ||
-                     (options.handle.err == 0 && options.handle.in != 0) ||
-                     (options.handle.err == 1 && options.handle.out != 1)));
-  __CPROVER_assume(options.handle.exit > 2);
-  gc.cfg_no_low_fresh = true; /* process_start's error pipe does not land on 0..2 */
-#endif
 
   /* the launch request, as the properties state it */
   gc.cfg_wd = options.working_directory;
@@ -106,6 +92,8 @@ void harness(void)
   gc.want_obj[1] = g.fds.obj[options.handle.out];
   gc.want_obj[2] = g.fds.obj[options.handle.err];
   gc.want_exit_fd = options.handle.exit;
+  gc.want_exit_obj = g.fds.obj[options.handle.exit];
+  g.exit_moved_to = -1;
   gc.want_argv = (char *const *) argv;
   gc.want_argv0 = argv ? argv[0] : NULL;
   gc.want_prepend = argv != NULL && options.working_directory != NULL && spec_relative(a0);
@@ -119,6 +107,19 @@ void harness(void)
   int verif_rv = process_start(process, argv, options);
 #include "gen/post_process_start.inc"
 #if defined(SIDE_CHILD)
+  {
+    /* C11, fork mode: whatever is open beyond the standard streams refers to an
+       object one of the four handles referred to (the handles themselves, or the
+       duplicates the library moved above the standard streams) */
+    bool only_handles = true;
+    for (int fd = 3; fd < VERIF_NFD; fd++) {
+      if ((g.fds.open & BIT(fd)) != 0 && g.fds.obj[fd] != gc.want_obj[0] && g.fds.obj[fd] != gc.want_obj[1] &&
+          g.fds.obj[fd] != gc.want_obj[2] && g.fds.obj[fd] != gc.want_exit_obj) {
+        only_handles = false;
+      }
+    }
+    V_ASSERT("C11/process_start.fork_mode_child_keeps_only_its_handles", !g.in_child || only_handles);
+  }
   V_CANARY("process_start.fork_mode_child_returns_reachable");
 #else
   if (verif_rv == 1) V_CANARY("process_start.success_reachable");
